@@ -67,8 +67,8 @@ func c10LEParamsValid(mode uint8, mask uint32, rot uint8) bool {
 
 // c10Layout is everything about the bytes of a "seg" arrival that both the builder and the model need.
 type c10Layout struct {
-	bodyLen  int  // encoded payload body length actually attached (without tag)
-	tailLen  int  // bytes that follow the metadata block
+	bodyLen  int // encoded payload body length actually attached (without tag)
+	tailLen  int // bytes that follow the metadata block
 	declPre  int
 	declPay  int
 	declSuf  int
